@@ -81,9 +81,50 @@ impl<P: Problem> Component<P> for Block<P> {
     }
 
     fn execute(&self, problem: &P, state: &mut State<P>) -> ExecResult<()> {
+        #[cfg(mahf_verif)]
+        let (verif_block, mut verif_index) = (self as *const Self as usize, 0usize);
+        #[cfg(mahf_verif)]
+        crate::verif::emit(
+            crate::verif::Step::BlockEnter {
+                block: verif_block,
+                len: self.0.len(),
+            },
+            problem,
+            state,
+        );
         for component in &self.0 {
+            #[cfg(mahf_verif)]
+            crate::verif::emit(
+                crate::verif::Step::Before {
+                    block: verif_block,
+                    index: verif_index,
+                    component: component.as_ref(),
+                },
+                problem,
+                state,
+            );
             component.execute(problem, state)?;
+            #[cfg(mahf_verif)]
+            crate::verif::emit(
+                crate::verif::Step::After {
+                    block: verif_block,
+                    index: verif_index,
+                    component: component.as_ref(),
+                },
+                problem,
+                state,
+            );
+            #[cfg(mahf_verif)]
+            {
+                verif_index += 1;
+            }
         }
+        #[cfg(mahf_verif)]
+        crate::verif::emit(
+            crate::verif::Step::BlockExit { block: verif_block },
+            problem,
+            state,
+        );
         Ok(())
     }
 }
